@@ -414,6 +414,9 @@ func TestFixedSpecs(t *testing.T) {
 		"grammar g;\nRA = /r[<>]/\nCA = /c[;\\]]/\nPA = /p[Ab]/\nQA = /q[BC]/\nSA = /s[ad]/\nTA = /t[bc]/\nUA = /u[ae]/\nVA = /v[bd]/\nWA = /w[\\x21\\x40]/\nXA = /x[\\x20\\x41]/\nstart = RA | CA | PA | QA | SA | TA | UA | VA | WA | XA;\n",
 		// symbols outside the basic plane and outside Unicode (eight-digit escapes), alone in a group and sharing one
 		"grammar g;\nEMO = /\\x0001F600\\x00010000\\x0010FFFF/\nNEG = /a(\\xFFFFFFFF|b)c/\nOUT = /[y\\xFFFFFFFF]z/\nBIG = /\\x00110000|\\x7FFFFFFF|\\x80000000/\nstart = EMO | NEG | OUT | BIG;\n",
+		// classes with hundreds and thousands of symbols: long groups and long lines in the emitted transition function
+		"grammar g;\nGREEK = /\\p{Greek}+/\nUP = /\\p{Lu}x/\nID = /[a-z]+/\nstart = GREEK | UP | ID;\n",
+		"grammar g;\nHAN = /[\\x4E00-\\x9FFF]+/\nHANGUL = /[\\xAC00-\\xD7A3]/\nstart = HAN | HANGUL | \"x\";\n",
 		// terminals whose text would end a comment or a string in the emitted source
 		"grammar g;\nstart = \"*/\" | \"/*\" | \"*/case(99):/*\" | \"//\" | \"`+`\" | \"\\\"+\\\"\" ;\n",
 	}
